@@ -30,6 +30,7 @@ type Plan struct {
 	Lat      string `json:"lat"` // zero | inc | dec | straggler | random
 	LatSeed  int    `json:"latseed,omitempty"`
 	Fail     []int  `json:"fail,omitempty"`
+	ErrKind  string `json:"errkind,omitempty"` // "" plain sentinel | deadline | canceled: the calls' errors also wrap that context error
 	Ctx      string `json:"ctx"` // live | cancelled | cancel-at
 	CancelMs int    `json:"cancel_ms,omitempty"`
 }
@@ -74,6 +75,7 @@ func genPlan(t *rapid.T) Plan {
 				p.Fail = append(p.Fail, i)
 			}
 		}
+		p.ErrKind = rapid.SampledFrom([]string{"", "", "deadline", "canceled"}).Draw(t, "errkind")
 		p.Ctx = rapid.SampledFrom([]string{"live", "live", "live", "cancelled", "cancel-at"}).Draw(t, "ctx")
 		p.CancelMs = rapid.SampledFrom([]int{0, 1, 5, 50, 500}).Draw(t, "cancelms")
 	}
@@ -116,10 +118,28 @@ func newProbe(p Plan, fake bool) *probe {
 	pr := &probe{p: p, calls: make([]atomic.Int32, p.N), cells: make([]int, p.N), sentinels: make([]error, p.N), fake: fake}
 	for _, i := range p.Fail {
 		if i >= 0 && i < p.N {
-			pr.sentinels[i] = sk.NewSentinel(fmt.Sprintf("fail-%d", i))
+			pr.sentinels[i] = callError(p.ErrKind, fmt.Sprintf("fail-%d", i))
 		}
 	}
 	return pr
+}
+
+// ctxWrap is a call's own error that also wraps a context error (a per-call timeout, say): it is
+// still "an error that one of the calls returned" and has to come back as such.
+type ctxWrap struct{ own, ctxErr error }
+
+func (e *ctxWrap) Error() string   { return e.own.Error() + ": " + e.ctxErr.Error() }
+func (e *ctxWrap) Unwrap() []error { return []error{e.own, e.ctxErr} }
+
+func callError(kind, name string) error {
+	s := sk.NewSentinel(name)
+	switch kind {
+	case "deadline":
+		return &ctxWrap{s, context.DeadlineExceeded}
+	case "canceled":
+		return &ctxWrap{s, context.Canceled}
+	}
+	return s
 }
 
 func (pr *probe) problem(format string, args ...any) {
@@ -373,6 +393,7 @@ type StormPlan struct {
 	N      int    `json:"n"`
 	Par    int    `json:"par"`
 	Fail   []int  `json:"fail"`
+	ErrKind string `json:"errkind,omitempty"`
 	Rounds int    `json:"rounds"`
 }
 
@@ -382,6 +403,7 @@ func genStorm(t *rapid.T) StormPlan {
 	for k := rapid.IntRange(1, 3).Draw(t, "nfail"); k > 0; k-- {
 		p.Fail = append(p.Fail, rapid.IntRange(0, p.N-1).Draw(t, "fail"))
 	}
+	p.ErrKind = rapid.SampledFrom([]string{"", "", "deadline", "canceled"}).Draw(t, "errkind")
 	return p
 }
 
@@ -389,7 +411,7 @@ func runStorm(p StormPlan) (vk.Outcome, error) {
 	var out vk.Outcome
 	failing := map[int]error{}
 	for _, i := range p.Fail {
-		failing[i] = sk.NewSentinel(fmt.Sprintf("fail-%d", i))
+		failing[i] = callError(p.ErrKind, fmt.Sprintf("fail-%d", i))
 	}
 	in := make([]int, p.N)
 	for i := range in {
